@@ -75,6 +75,12 @@ def run_controls():
     if any(x.verdict == VIOLATED and x.func == 'ctl2.values_like_labels' for x in o.items):
         bad.append('DTYPE fired on a buffer that only receives elements of its source')
     n += 1
+    o = Obligations('CTL')
+    sweeps.inplace_division(ctx, o, ['ctl2.'])
+    expect('inplace-div', o, 'INPLACE-DIV', 'prod /= ')
+    if any(x.verdict == VIOLATED and x.func == 'ctl2.normalise_float' for x in o.items):
+        bad.append('INPLACE-DIV fired on a float target')
+    n += 1
     from .props.c03 import putmask_values
     o = Obligations('CTL')
     putmask_values(ctx, o, prefix='ctl2.')
